@@ -1302,8 +1302,10 @@ theorem readResponse_wire (proto msg : Bytes) (code : Nat)
   unfold readHeaders
   rw [hrh]
   simp only [atoi_utoa]
+  have hcl := hi2.1
+  simp only [hcl, Bool.false_eq_true, if_false]
   rw [skipContinue_final _ _ _ _ _ hfinal]
-  simp only []
+  simp only [hcl, Bool.false_eq_true, if_false]
   unfold norm at hrb
   rw [hrb]
   rfl
@@ -2243,15 +2245,22 @@ theorem readResponse_after_continue (i : Inp) (hi : Live i) (rest : Bytes) (hd :
               obtain ⟨e1, e2, e3, e4⟩ := hhead
               simp only []
               rw [e1, e2, e3, e4]
-              exact skipContinue_final _ _ _ _ _ hc
+              split
+              · rfl
+              · exact skipContinue_final _ _ _ _ _ hc
+  have hl25 : (i.advance 25).closed = false := (live_advance hi 25).1
   conv => lhs; unfold readResponse
   rw [h1]
-  simp only []
+  simp only [hl25, Bool.false_eq_true, if_false]
   rw [hstep]
   conv => rhs; unfold readResponse
   rw [hhead]
   simp only []
-  rw [skipContinue_final _ _ _ _ _ hc]
+  by_cases hcl : i2.closed = true
+  · simp only [hcl, if_true]
+  · simp only [hcl, if_false]
+    rw [skipContinue_final _ _ _ _ _ hc]
+    simp [hcl]
 
 
 
